@@ -84,6 +84,13 @@ def shapes_for(v, tier):
             out.append(("%s1%s" % (t, sfx), (t, f, [("i", False)])))
             out.append(("%s2%s" % (t, sfx), (t, f, [("i", False), ("u" if py3 else "s", False, 1)])))
             out.append(("%snest%s" % (t, sfx), (t, f, [("(", False, [("i", False)]), ("N",)])))
+        if not f:
+            # both string kinds as children of every container kind, directly and one level down (the bytes/text decision
+            # travels down the recursion as an argument)
+            for t in (["(", "[", "<", ">"] if v >= (2, 5) else ["(", "["]) + ([")"] if refs else []):
+                out.append(("%s-strkinds" % t, (t, f, [("s", False, 1, False), ("u", False, 1)])))
+                out.append(("%s-strkinds-nested" % t, (t, f, [("(", False, [("s", False, 1, False), ("u", False, 1)])])))
+            out.append(("dict-strkinds", ("{", f, [(("iconst", False, 1), ("s", False, 1, False)), (("iconst", False, 2), ("u", False, 1))])))
         out.append(("dict0" + sfx, ("{", f, [])))
         out.append(("dict1" + sfx, ("{", f, [(("i", False), ("u" if py3 else "s", False, 1))])))
         out.append(("dict-nonekey" + sfx, ("{", f, [(("N",), ("i", False)), (("iconst", False, 7), ("T",))])))
